@@ -171,6 +171,86 @@ POOL = [
     P("wild_missing", 'import "lib/*"; import "nolib/*";', files=LIB, tags=["disk", "multi", "fails"]),
     P("wild_dup", 'import "lib/*";', files=dict(LIB, **{"lib/sub/again.jmc": 'function lib.alpha() { say "dup"; }'}), tags=["disk", "multi", "fails", "sets"]),
 ]
+# ---- strengthening round 2: SAME SOURCE TEXT, DIFFERENT DEFINITION.  A family = one main.jmc text (and, where the entity lives in the
+# header, one header text) compiled under several definitions of ONE entity that influences the output: the value of a number macro
+# (#define / #env / #enum), a macro body, a binder, the envs, a declared command / condition / deleted command / override / link /
+# resource, a header flag, jmc.txt, pack_format, namespace, description, an included header file, an imported file, the set of files a
+# wildcard covers, a copied folder.  All members share one project folder (`dir`): every entry point compiles every member after every
+# other member of its family in one process, in both orders (any memo keyed by the text alone then answers with the other definition).
+NUM_SRC = ('@lazy function lz(a) { say "z Hardcode.calc($a*SIZE)"; } '
+           'function f(){ $n = SIZE; if ($n matches 1..SIZE) { say "m"; } '
+           'Hardcode.repeat((i) => { say "r Hardcode.calc($i*SIZE+DEBUG) Hardcode.calc(E.C+$i)"; }, start=0, stop=3); '
+           'Hardcode.switch($x, (i) => { say "s Hardcode.calc($i+SIZE)"; }, count=3); lz(2); lz(a=3); '
+           '$e = ev(SIZE*2); $t = nt(DEBUG); $k = E.B; $d = DEBUG; if ($d matches DEBUG..SIZE) { say "r"; } }')
+NUM_HDR = "#define SIZE %s\n#env DEBUG\n#bind EVAL ev\n#bind NOT nt\n#enum E %s\n"
+MACRO_SRC = 'function f(){ GREET("hi"); TW(@a, "x"); tellraw @a WORD; DD("d"); $n = COUNT; if ($n matches 1..COUNT) { say "c"; } }'
+BIND_SRC = 'function f(){ tellraw @a HASH; tellraw @a NSNAME; data merge entity UID {}; tellraw @s HASH; }'
+NAMES_SRC = BODY + ' function g(){ $y = 5; $z = $y; $z *= 3; $z %= 7; ::sv = $z; if ($z > 1) { say "p"; say "q"; } } Player.firstJoin(()=>{ say "hi"; say "ho"; });'
+PF_SRC = ('Item.create(it, stone, "Name", lore=["l"]); Trigger.add(helpme, ()=>{ say "t"; say "u"; }); '
+          'function g(){ Item.give(it); Text.tellraw(@a, "&<red,bold>hi"); $x = 5; if ($x > 2) { say "a"; say "b"; } ::st = $x; }')
+IMP_SRC = 'say "main"; import "lib/a"; import "lib/*"; import "more/*"; function f(){ lib.a(); }'
+IMP_A1 = 'say "a one"; function lib.a() { say "A1"; }'
+IMP_A2 = 'say "a two"; $a2 = 2; function lib.a() { say "A2"; say "A2b"; }'
+INC_SRC = 'function f(){ $i = INC; incmd 1; Hardcode.repeat((i) => { say "Hardcode.calc($i+INC)"; }, start=0, stop=2); }'
+
+
+def FAMILY(name, src, variants, **common):
+    """variants: list of dicts overriding P's keyword arguments (header, envs, cert, pf, ns, files, pre_files, desc ...)"""
+    out = []
+    for k, v in enumerate(variants):
+        kw = dict(common)
+        kw.update(v)
+        tags = list(kw.pop("tags", [])) + ["samedef", "fam:" + name]
+        desc = kw.pop("desc", None)
+        d = P(f"sd_{name}_{k}", src, dir="sd_" + name, tags=tags, **kw)
+        if desc is not None:
+            d["desc"] = desc
+        out.append(d)
+    return out
+
+
+FAMILIES = (
+    FAMILY("number", NUM_SRC, [dict(header=NUM_HDR % ("4", "A B C"), envs=["DEBUG"]), dict(header=NUM_HDR % ("7", "A B C"), envs=["DEBUG"]),
+                               dict(header=NUM_HDR % ("4", "A B C")), dict(header=NUM_HDR % ("4", "5 A B C"), envs=["DEBUG"]),
+                               dict(header=NUM_HDR % ("4", "C B A"), envs=["DEBUG"]), dict(header=NUM_HDR % ("12", "A B C D"))], tags=["header"])
+    + FAMILY("macro", MACRO_SRC, [dict(header='#define GREET(x) say x\n#define TW(a, b) tellraw a b\n#define WORD hello\n#deepdefine DD(x) say x\n#define COUNT 3\n'),
+                                  dict(header='#define GREET(x) tellraw @a x\n#define TW(a, b) tellraw a b\n#define WORD hello\n#deepdefine DD(x) say x\n#define COUNT 3\n'),
+                                  dict(header='#define GREET(x) say x\n#define TW(a, b) tellraw a [b, b]\n#define WORD bye\n#deepdefine DD(x) tellraw @s x\n#define COUNT 4\n'),
+                                  dict(header='#define GREET(y) tellraw @a [y, y]\n#define TW(b, a) tellraw b a\n#define WORD "hello"\n#define DD(x) say x\n#define COUNT 5\n')], tags=["header"])
+    + FAMILY("bind", BIND_SRC, [dict(header='#bind __namehash5__ HASH\n#bind __namespace__ NSNAME\n#bind __UUID__ UID\n'),
+                                dict(header='#bind __namehash6__ HASH\n#bind __namespace__ NSNAME\n#bind __UUID__ UID\n'),
+                                dict(header='#bind __namehash5__ HASH\n#bind __namespace__ NSNAME\n#bind __UUID__ UID\n', ns="mypack"),
+                                dict(header='#bind __namespace__ HASH\n#bind __namehash7__ NSNAME\n#bind __UUID__ UID\n')], tags=["header"])
+    + FAMILY("envs", 'function f(){ $d = dev; $p = prod; if ($d matches dev..3) { say "x"; } if ($p matches prod..5) { say "y"; } Hardcode.repeat((i) => { say "Hardcode.calc($i*dev+prod)"; }, start=1, stop=3); }',
+             [dict(envs=["dev"]), dict(envs=["prod"]), dict(envs=["dev", "prod"]), dict(envs=[])], header="#env dev\n#env prod\n", tags=["header"])
+    + FAMILY("command", 'function f(){ mycmd 1 2; }', [dict(header="#command mycmd\n"), dict(header="#command other\n"), dict(header=None),
+                                                      dict(header="#command mycmd\n#del mycmd\n")], tags=["header"])
+    + FAMILY("condition", 'function f(){ if (mykind entity @s) { say "x"; } }', [dict(header="#command execute if mykind\n"), dict(header="#command execute if kind2\n"), dict(header=None)],
+             tags=["header"])
+    + FAMILY("del", 'function f(){ scoreboard players set give obj 1; tellraw @a give; }', [dict(header="#del give\n"), dict(header="#del say\n"), dict(header=None)], tags=["header"])
+    + FAMILY("override", 'function otherns.g(){ say "o"; } function f(){ otherns.g(); }',
+             [dict(header="#override otherns\n"), dict(header="#override thirdns\n"), dict(header=None), dict(header="#override otherns\n#override thirdns\n")], tags=["header"])
+    + FAMILY("link", 'function f(){ otherpack.api(); }', [dict(header="#link otherpack\n"), dict(header="#link pack2\n"), dict(header=None)], tags=["header"])
+    + FAMILY("resource", 'new myres(x.y) {"a":1}', [dict(header="#resource myres\n"), dict(header="#resource my.res2\n"), dict(header=None)], tags=["header"])
+    + FAMILY("flags", 'function uninstall(){ say "bye"; } Team.add(red); ' + BODY,
+             [dict(header=None), dict(header="#forcebst\n"), dict(header="#show_private_command\n"), dict(header="#nometa\n"), dict(header='#credit "one"\n'),
+              dict(header='#credit "two"\n#credit\n'), dict(header="#uninstall\n")], tags=["header"])
+    + FAMILY("names", NAMES_SRC, [dict(cert=FULL), dict(cert=CUSTOM), dict(cert=CUSTOM2), dict(cert="LOAD=ld\nTICK=tk\nPRIVATE=pv\nVAR=__variable__\nINT=__int__\nSTORAGE=st2")],
+             tags=["sets-names"])
+    + FAMILY("packformat", PF_SRC, [dict(pf="48"), dict(pf="15"), dict(pf="26"), dict(pf="41"), dict(pf="71")])
+    + FAMILY("namespace", NAMES_SRC + " function h(){ f(); g(); }", [dict(ns="TEST"), dict(ns="mypack"), dict(ns="a_b")])
+    + FAMILY("description", BODY, [dict(desc="first pack"), dict(desc="second pack")], only=["PYJMC", "CLI"])
+    + FAMILY("include", INC_SRC, [dict(files={"inc.hjmc": "#define INC 9\n#command incmd\n"}), dict(files={"inc.hjmc": "#define INC 11\n#command incmd\n"}),
+                                  dict(files={"inc.hjmc": '#include "sub/inc2"\n', "sub/inc2.hjmc": "#define INC 13\n#command incmd\n#command incmd2\n"})],
+             header='#include "inc"\n', tags=["header", "disk"])
+    + FAMILY("import", IMP_SRC, [dict(files={"lib/a.jmc": IMP_A1, "more/m.jmc": 'say "m";'}), dict(files={"lib/a.jmc": IMP_A2, "more/m.jmc": 'say "m";'}),
+                                 dict(files={"lib/a.jmc": IMP_A1, "lib/b.jmc": 'say "b";', "lib/sub/c.jmc": 'say "c"; function lib.c() { say "C"; }', "more/m.jmc": 'say "m";'}),
+                                 dict(files={"lib/a.jmc": IMP_A1, "lib/sub/c.jmc": 'say "c";', "more/m.jmc": 'say "m2";', "more/n.jmc": 'say "n";'}),
+                                 dict(files={"lib/a.jmc": IMP_A1})], tags=["disk", "multi"])
+    + FAMILY("copy", 'function f(){ extra.x(); }', [dict(files=ASSETS), dict(files={"assets/data/extra/function/x.mcfunction": "say other x", "assets/pack.png": "PNG2"})],
+             header='#copy "assets"\n#override extra\n', tags=["header", "disk"])
+)
+POOL += FAMILIES
 ENTRIES = ["TEST", "PYJMC", "CLI"]
 
 
@@ -226,6 +306,8 @@ def classify_state(path, t):
         return "DF " + m.group(1) if t is None or ("DF", m.group(1)) in t["fields"] else None
     if re.match(r"^jmc\..*\.ISOLATED_ENVIRONMENT\.(exec_global|content)$", path):
         return "PyEnv"
+    if path.endswith(".<functools-cache>"):
+        return "cache"          # a memo that outlives the compile: judged by the cache audit (pure in its key, or a witness)
     return None
 
 
@@ -315,16 +397,22 @@ def main(tier: str) -> int:
     for e in ENTRIES:
         eids = [i for i in ids if fits(e, i)]
         for a in eids:
-            if e == "TEST" or tier == "thorough":
+            by_ = {p["id"]: p for p in POOL}
+            fam = {p["id"] for p in FAMILIES} & set(eids)
+            if tier == "thorough":
                 bs = [b for b in eids]
-            else:       # always: the project itself again (autocompile), the other edits of the same folder, everything that observes
-                by_ = {p["id"]: p for p in POOL}
+            elif e == "TEST" and a not in fam:      # round-1 pool: everything after everything; + a sample of the same-text families
+                bs = [b for b in eids if b not in fam] + rng.sample(sorted(fam), 6)
+            else:       # always: the project itself again (autocompile), the other edits of the same folder (for a same-text family: every
+                        # other definition of the entity, so both orders of every pair occur), everything that observes
                 must = [b for b in eids if b == a or (by_[a].get("dir") and by_[b].get("dir") == by_[a].get("dir"))]
                 sens = [b for b in sensitive if fits(e, b)]
                 if e == "PYJMC":        # same virtual build as TEST (which runs all x all): a sample of the observers is enough
                     sens = rng.sample(sens, min(12, len(sens)))
+                if a in fam:            # a same-text family member: its family (both orders), a few observers, a few others
+                    sens = rng.sample(sens, min(5, len(sens)))
                 rest = [b for b in eids if b not in sens and b not in must]
-                bs = list(dict.fromkeys(must + sens + rng.sample(rest, min(4, len(rest)))))
+                bs = list(dict.fromkeys(must + sens + rng.sample(rest, min(3 if a in fam else 4, len(rest)))))
             seq = []
             for b in bs:
                 seq += [a, b]
@@ -433,6 +521,23 @@ def main(tier: str) -> int:
                     field_mutators.setdefault(f, set()).add(it["id"])
 
     lap("statediff_reach")
+    # (4b) CACHE AUDIT (strengthening round 2): every functools cache of the package that outlives a compile is called through a recording
+    #      proxy while the pool (then the same-text families in reverse order) is compiled in one process per entry point; after every
+    #      compile the entries stored by earlier compiles are recomputed with the un-cached function and compared with the cached value
+    fam_ids = [p["id"] for p in FAMILIES]
+    audit_entries = ["TEST", "CLI"] if tier == "quick" else ENTRIES
+    with ThreadPoolExecutor(max_workers=NCPU) as ex:
+        audits = list(ex.map(lambda e: run_seq(items(e, ids + fam_ids[::-1]), audit=True).get("audit") or {}, audit_entries))
+    cache_rows, witnesses = {}, []
+    for e, a in zip(audit_entries, audits):
+        for c in a.get("caches", []):
+            row = cache_rows.setdefault(c["cache"], dict(c, entry_points=[]))
+            row["entry_points"].append(e)
+            for k_ in ("entries", "recorded_keys", "recomputed", "hits_on_entries_of_an_earlier_compile", "recorded_calls"):
+                row[k_] = max(row[k_], c[k_])
+            row["intercepted"] = row["intercepted"] or c["intercepted"]
+        witnesses += [dict(w, entry=e) for w in a.get("witnesses", [])]
+    lap("cache_audit")
     # (5) SELF-TEST of the pool (no verdict depends on it; it measures what the pair experiment could see): for every field of the
     #     regenerated Header universe the reset of that ONE field is undone in the runner process (Header.__clear runs, then the field
     #     gets its previous object back — exactly what a missing reset or an aliased / un-copied reset value does), the pool is compiled
@@ -639,6 +744,34 @@ def main(tier: str) -> int:
         found = True
         ck.violation(dict(kind="hash-seed-dependent", entry=e, project=dict(by[b], entry=e), seeds=["0", alt[0]],
                           expected="byte-identical result under every PYTHONHASHSEED", difference=describe_diff(r0, alt[1])))
+    # memos keyed by less than what their value depends on (cache audit): one report per cache, with the end-to-end pair when the pool has it
+    rep_cache = set()
+    for w in witnesses:
+        if w["cache"] in rep_cache or len(rep_cache) >= 3:
+            continue
+        rep_cache.add(w["cache"])
+        e = w["entry"]
+        pair = None
+        row = cache_rows.get(w["cache"], {})
+        for q, r_ in [(w["stored_by"], w["recomputed_after"])] + [tuple(x) for x in row.get("cross_hit_pairs", [])]:
+            if q == r_ or not (fits(e, q) and fits(e, r_)):
+                continue
+            after = run_seq(items(e, [q, r_]))["results"][-1]
+            if not same(base[(e, r_)], after):
+                pair = (q, r_, after)
+                break
+        found = True
+        ck.violation(dict(kind="memo-keyed-by-less-than-its-inputs", entry=e, cache=w["cache"], arguments=w["arguments"], cached_value=w["cached"],
+                          value_now=w["now"], history=[dict(by[w["stored_by"]], entry=e)], project=dict(by[w["recomputed_after"]], entry=e),
+                          expected="a value memoised during one compile is what the function computes for the same arguments at any later time "
+                                   "(else a later compile in the same process is answered with the earlier project's definitions)",
+                          end_to_end=(dict(history=[dict(by[pair[0]], entry=e)], project=dict(by[pair[1]], entry=e),
+                                           difference=describe_diff(base[(e, pair[1])], pair[2])) if pair else None)))
+    blind = sorted(c for c, row in cache_rows.items() if row["entries"] > 0 and not row["recorded_keys"])
+    if blind:
+        ck.violation(dict(kind="global-state-outside-model", written=[c + ".<functools-cache>" for c in blind],
+                          what="a functools cache of the package outlives the compile and could not be audited (it is not called through a module-level "
+                               "name / class attribute): C12_history_free does not cover it"), no_input=not found)
     if outside:
         ck.violation(dict(kind="global-state-outside-model", written=outside,
                           what="a compile wrote process-global state that is not a field of the model (U): C12_history_free does not cover it"),
@@ -689,6 +822,8 @@ def main(tier: str) -> int:
         set_attribute_max_elements=dict(sorted(attr_size.items())),
         seed_projects={e: len(v) for e, v in seed_ids.items()},
         globals_written=written, globals_written_outside_model=outside,
+        persistent_functools_caches=sorted(cache_rows.values(), key=lambda c: c["cache"]), memo_witnesses=witnesses[:6],
+        same_text_families={f: sorted(p["id"] for p in FAMILIES if "fam:" + f in p["tags"]) for f in sorted({t[4:] for p in FAMILIES for t in p["tags"] if t.startswith("fam:")})},
     ))
     return ck.finish()
 
@@ -734,5 +869,18 @@ def replay(path: str) -> int:
         print("expected : identical results")
         print("actual   :", "identical" if not bad else json.dumps(describe_diff(rs[0], bad[0]), indent=1)[:2000])
         return 1 if bad else 0
+    if rp.get("kind") == "memo-keyed-by-less-than-its-inputs":
+        a = run_seq(rp["history"] + [rp["project"]], audit=True).get("audit") or {}
+        ws = [w for w in a.get("witnesses", []) if w["cache"] == rp["cache"]]
+        print("cache    :", rp["cache"], "| compiled in one process:", [h["id"] for h in rp["history"]], "then", rp["project"]["id"], "via", rp["entry"])
+        print("expected : every value stored during the first compile is what the un-cached function computes after the second")
+        print("actual   :", "as expected" if not ws else json.dumps([dict(arguments=w["arguments"], cached=w["cached"], now=w["now"]) for w in ws[:3]], indent=1))
+        if rp.get("end_to_end"):
+            ee = rp["end_to_end"]
+            alone = run_seq([ee["project"]])["results"][0]
+            after = run_seq(ee["history"] + [ee["project"]])["results"][-1]
+            print("end to end:", ee["project"]["id"], "after", [h["id"] for h in ee["history"]], "->",
+                  "identical to the fresh-process result" if same(alone, after) else json.dumps(describe_diff(alone, after), indent=1)[:1500])
+        return 1 if ws else 0
     print("replay file names no input (", rp.get("kind"), "):", rp.get("what"))
     return 1
